@@ -29,10 +29,16 @@ def units(ctx):
     B = 2 if ctx.thorough else 1
     for alg in GP_ALGS:
         cl = list(cs)
+        if alg in ("PaVeBaGP-IH", "PartialGP-rect"):
+            cl += [("W", ((1, 0), (-1, 2)), "unit")]  # a NON-symmetric square cone matrix {x1 >= 0, x2 >= x1/2}
         if alg.endswith(("DE", "ell")):
             cl += [("theta3", 135)] + ([("theta3", 60)] if ctx.thorough else [])
         for spec in cl:
-            for mu in reach.truths(2, 2, ctx.thorough, ctx.seed):
+            lat = reach.truths(2, 2, ctx.thorough, ctx.seed)
+            tgt = reach.gap_targeted_truths(cones.W_of(spec), reach.eps_of())
+            if not ctx.thorough:
+                lat, tgt = lat[:5], tgt[:5]
+            for mu in lat + tgt:
                 us.append(("reach", PROPERTY, alg, spec, 2, 2, mu, 7, B))
             k3 = reach.truths(3, 2, ctx.thorough, ctx.seed)
             if not ctx.thorough:
